@@ -1,11 +1,23 @@
 (* C16 -- Identity registry: unique keys stay unique, only owners edit, tips escrowed once.
    Only statements, each closed by [exact] of a lemma from Proofs/Identity.v, and its assumptions.
    The model (Model/Identity.v) is tied to /repo by the differential run of checks/c16.py. *)
-From Sekai Require Import Base.Prelude Model.NetPropsLib Model.Identity Proofs.Identity.
+From Sekai Require Import Base.Prelude Model.NetPropsLib Model.Identity Model.C16Check Proofs.Identity Proofs.IdentityOwner.
 
 (* ---------------------------------------------------------------- unique keys stay unique *)
-(* Full statement: after ANY history no two addresses hold the same value under a unique key.
-   It is REFUTED by the model (and by the real code, finding unique@setkeysmsg): *)
+(* The two flags of the model are PROBED on the tree under test by the harness:
+     del_fix   -- DeleteIdentityRecordById removes the address+key index entry (true since 9fe909f)
+     msg_guard -- MsgSetNetworkProperties applies the EnsureUniqueKeys guards (fixes/C16-msg-set-...patch)
+   The *_refuted theorems are statements about the OLD variants (flag = false, state [s0]). *)
+
+(* With the guarded message path: after ANY history no two addresses hold the same value under a
+   unique key (full strength, no side condition on the operations). *)
+Theorem C16_unique_keys_unique :
+  forall ops s, KU s -> msg_guard s = true -> KU (run s ops).
+Proof. exact unique_keys_unique. Qed.
+Print Assumptions C16_unique_keys_unique.
+
+(* Without it (msg_guard = false, the tree as it is until that patch is committed) the full
+   statement is REFUTED by the model and by the real code (finding unique@setkeysmsg): *)
 Theorem C16_unique_keys_unique_refuted :
   exists s ops, KU s /\ ~ UI (run s ops).
 Proof. exists s0, w_unique. exact unique_refuted. Qed.
@@ -72,9 +84,45 @@ Theorem C16_tip_paid_once :
 Proof. exact run_gone. Qed.
 Print Assumptions C16_tip_paid_once.
 
+(* monikers, however written (register / ClaimValidator / ClaimCouncilor, any key spelling) *)
+Theorem C16_moniker_unique :
+  forall ops s, KU s -> MK s -> guarded s ops ->
+  forall r1 r2, In r1 (recs (run s ops)) -> In r2 (recs (run s ops)) ->
+  r_key r1 = "moniker"%string -> r_key r2 = "moniker"%string -> r_val r1 = r_val r2 -> r_owner r1 = r_owner r2.
+Proof. exact moniker_unique. Qed.
+Print Assumptions C16_moniker_unique.
+
 (* ---------------------------------------------------------------- only owners edit *)
-(* Full statement REFUTED (finding owner:stale-index): after a rotation the old address edits the
-   record that was moved to the new address. *)
+(* FULL STRENGTH for the tree as it is (del_fix = true), over all histories whose rotations go to
+   addresses holding no identity records yet ([rot_guarded]; such a target has no account -- checked
+   by the code -- and so never signed anything): every operation leaves the records of all
+   addresses other than its signer untouched, a rotation moves the records unchanged. *)
+Theorem C16_only_owner_edits :
+  forall ops s o s', W s -> del_fix s = true -> rot_guarded s (ops ++ [o]) ->
+  step (run s ops) o = Ok s' -> owner_frame (run s ops) o s'.
+Proof. exact only_owner_edits. Qed.
+Print Assumptions C16_only_owner_edits.
+
+(* the invariant behind it: index and record store describe the same (owner, key, id) triples and
+   every pending request covers only records indexed under its requester *)
+Theorem C16_wellformed_histories :
+  forall ops s, W s -> del_fix s = true -> rot_guarded s ops -> W (run s ops) /\ del_fix (run s ops) = true.
+Proof. exact run_W. Qed.
+Print Assumptions C16_wellformed_histories.
+
+(* ---------------------------------------------------------------- an edit drops verifications and cancels requests *)
+(* FULL STRENGTH, same histories: whenever an operation changes the value of a record or deletes it,
+   no pending request covers it afterwards (they were cancelled and refunded, see
+   C16_tip_escrow_invariant) and the record, if it still exists, has no verifications. *)
+Theorem C16_edit_drops_verifications_and_cancels :
+  forall ops s o s', W s -> del_fix s = true -> rot_guarded s (ops ++ [o]) ->
+  step (run s ops) o = Ok s' -> edit_drops_full (run s ops) s'.
+Proof. exact edit_drops_verifications_and_cancels. Qed.
+Print Assumptions C16_edit_drops_verifications_and_cancels.
+
+(* ---------------------------------------------------------------- the old variant (before 9fe909f) *)
+(* OLD variant (del_fix = false): the full statement was REFUTED (finding owner:stale-index, fixed by
+   9fe909f): after a rotation the old address edits the record that was moved to the new address. *)
 Theorem C16_only_owner_edits_refuted :
   exists s ops o s', KU s /\ step (run s ops) o = Ok s' /\ ~ owner_frame (run s ops) o s'.
 Proof. destruct owner_refuted as (s' & H1 & H2). exists s0, w_rot, w_rot_op, s'. split; [exact KU_s0|auto]. Qed.
@@ -105,7 +153,32 @@ Theorem C16_only_owner_edits_partial :
 Proof. exact set_record_owner_frame. Qed.
 Print Assumptions C16_only_owner_edits_partial.
 
+(* ---------------------------------------------------------------- the spec checker accepts the model *)
+Theorem C16_chk_sound_escrow :
+  forall base watch ops s, QE base s -> (forall d, In d denoms -> In (Gov, d) watch) ->
+  escrow_ok (snap_of watch s) (snap_of watch (run s ops)) = true.
+Proof. exact chk_sound_escrow. Qed.
+Print Assumptions C16_chk_sound_escrow.
+Theorem C16_chk_sound_unique :
+  forall watch ops s pre, KU s -> LU s -> guarded s ops -> unique_ok pre (snap_of watch (run s ops)) = true.
+Proof. exact chk_sound_unique. Qed.
+Print Assumptions C16_chk_sound_unique.
+
 (* ---------------------------------------------------------------- non-vacuity *)
+Definition s1 : state := init_state "moniker,username" 0 [0] [1] [6] [0; 1; 2; 3] [0; 1; 2; 3] bal0 true true.
+Example C16_nonvacuous_wellformed : W s1 /\ del_fix s1 = true /\ msg_guard s1 = true /\ KU s1 /\ MK s1 /\ LU s1.
+Proof.
+  split; [apply W_init|split; [reflexivity|split; [reflexivity|split; [split; intros r; simpl; tauto|split; vm_compute; reflexivity]]]].
+Qed.
+(* a guarded history with a rotation, after which the NEW owner edits and the old one cannot *)
+Example C16_nonvacuous_rotation :
+  let ops := [ORegister 100 0 [("twitter", "t0")]; ORequest 0 2 [1] "ukex" 0; ORotate 0 4 true]%string in
+  rot_guarded s1 (ops ++ [ORegister 101 4 [("twitter", "t1")]%string]) /\
+  recs (run s1 ops) = [mkRec 1 4 "twitter" "t0" 100 []]%string /\
+  is_ok (step (run s1 ops) (ORegister 101 4 [("twitter", "t1")]%string)) = true /\
+  recs (run s1 (ops ++ [ORegister 101 0 [("twitter", "stolen")]%string])) = [mkRec 1 4 "twitter" "t0" 100 []; mkRec 2 0 "twitter" "stolen" 101 []]%string.
+Proof. split; [cbn [rot_guarded rot_guard app]; repeat split; vm_compute; reflexivity|]. vm_compute. repeat split. Qed.
+
 Example C16_nonvacuous_start : KU s0 /\ QE (fun _ => 0) s0.
 Proof. split; [exact KU_s0|exact QE_s0]. Qed.
 (* a history that registers, requests with a tip, approves: the verifier is on the record, was paid,
